@@ -31,6 +31,7 @@ type expectWant struct {
 	Str   string   `json:"str,omitempty"`
 	Bool  bool     `json:"bool,omitempty"`
 	Nodes []string `json:"nodes,omitempty"` // refs, as a set; order must be monotone
+	Asc   bool     `json:"asc,omitempty"`   // the node-set must come back in ascending document order
 }
 
 // xmlToEvents tokenises XML with the harness's own encoding/xml decoder
@@ -164,7 +165,7 @@ func checkExpect(c *expectCase) error {
 		if c.Want.T != "nodes" {
 			return bad()
 		}
-		if err := sliceInvariants(v, p.loc, false); err != nil {
+		if err := sliceInvariants(v, p.loc, c.Want.Asc); err != nil {
 			return fmt.Errorf("Exec(%q): %v", c.Expr, err)
 		}
 		want := map[string]bool{}
